@@ -22,13 +22,7 @@ assigned separately, memory.py:221, 252).
 -/
 namespace TxV.MultiportMem
 
-/-- one physical one-write/one-read `amaranth.lib.memory.Memory` without granularity -/
-structure Bank where
-  mem : List Nat
-  rdata : Nat
-deriving Repr, DecidableEq, Inhabited
-
-/-- one clock edge of a physical memory: write port `(wen, wa, wd)`, read port `(ren, ra)`,
+/-- one clock edge of a physical one-write/one-read memory without granularity: write port `(wen, wa, wd)`, read port `(ren, ra)`,
     `tr` = the read port is transparent for the write port -/
 def Bank.step (tr : Bool) (b : Bank) (wen : Bool) (wa wd : Nat) (ren : Bool) (ra : Nat) : Bank :=
   { mem := if wen then b.mem.set wa wd else b.mem,
